@@ -204,6 +204,9 @@ type vlog struct {
 	seed    uint64
 	ctr     atomic.Uint64
 	nCyclic atomic.Int32
+
+	policy   string   // "" = free-running with jitter; otherwise the policy of the controlled scheduler (zz_verif_c05_ctl_test.go)
+	schedule []string // controlled runs: the goroutines released, in order ("label@hook point")
 }
 
 func vgid() int64 {
@@ -309,6 +312,86 @@ func (v *vlog) at(point string, args ...any) {
 }
 
 // ---------------------------------------------------------------------------------------------------------
+// goroutine snapshot (the runtime's own view: used to attribute a hang and by the controlled scheduler)
+
+type vgor struct {
+	gid   int64
+	state string // running, runnable, sync.Cond.Wait, sync.Mutex.Lock, chan receive, ...
+	where string // innermost frame in runner.go: "function file:line"
+	inRun bool   // a goroutine of a build: created by (*target).start
+}
+
+func vgoroutines() []vgor {
+	buf := make([]byte, 1<<18)
+	for {
+		n := runtime.Stack(buf, true)
+		if n < len(buf) {
+			buf = buf[:n]
+			break
+		}
+		buf = make([]byte, 2*len(buf))
+	}
+	var out []vgor
+	for _, blk := range strings.Split(string(buf), "\n\n") {
+		lines := strings.Split(blk, "\n")
+		h := lines[0]
+		if !strings.HasPrefix(h, "goroutine ") {
+			continue
+		}
+		h = h[len("goroutine "):]
+		i := strings.IndexByte(h, ' ')
+		if i < 0 {
+			continue
+		}
+		g := vgor{}
+		g.gid, _ = strconv.ParseInt(h[:i], 10, 64)
+		st := strings.TrimSuffix(strings.TrimPrefix(h[i+1:], "["), "]:")
+		if j := strings.IndexByte(st, ','); j >= 0 {
+			st = st[:j]
+		}
+		g.state = st
+		g.inRun = strings.Contains(blk, "created by github.com/pgavlin/dawn/runner.(*target).start")
+		for k := 1; k+1 < len(lines); k++ {
+			loc := strings.TrimSpace(lines[k+1])
+			if !strings.HasPrefix(lines[k], "\t") && strings.HasPrefix(lines[k+1], "\t") && strings.Contains(loc, "/runner/runner.go:") {
+				fn := lines[k]
+				if p := strings.LastIndexByte(fn, '('); p > 0 {
+					fn = fn[:p]
+				}
+				fn = strings.TrimPrefix(fn, "github.com/pgavlin/dawn/runner.")
+				if sp := strings.IndexByte(loc, ' '); sp > 0 {
+					loc = loc[:sp]
+				}
+				if sl := strings.LastIndexByte(loc, '/'); sl >= 0 {
+					loc = loc[sl+1:]
+				}
+				g.where = fn + " " + loc
+				break
+			}
+		}
+		out = append(out, g)
+	}
+	return out
+}
+
+func vactiveState(s string) bool {
+	return s == "running" || s == "runnable" || s == "syscall" || s == "sleep" || strings.HasPrefix(s, "GC ") || s == "preempted"
+}
+
+// vblockedReport lists the goroutines of the build (and the caller of Run) with the runtime's wait reason and the
+// runner.go line each one is at.
+func vblockedReport() []string {
+	var out []string
+	for _, g := range vgoroutines() {
+		if g.inRun || strings.HasPrefix(g.where, "(*target).wait") || strings.HasPrefix(g.where, "Run ") {
+			out = append(out, fmt.Sprintf("goroutine %d [%s] at %s", g.gid, g.state, g.where))
+		}
+	}
+	sort.Strings(out)
+	return out
+}
+
+// ---------------------------------------------------------------------------------------------------------
 // fake Targets / Target
 
 type vErr struct {
@@ -334,6 +417,7 @@ type vworld struct {
 	finished []bool
 	outcome  []error
 	results  map[int][][2]string // dependent -> (dep, kind) in the order handed over
+	first    map[int]int         // dependent -> class of its first failed result (0 none, 1 failed, 2 cyclic): what target.go acts on
 	oracles  [][2]string
 	targets  []*vtarget
 }
@@ -447,9 +531,31 @@ func (t *vtarget) Evaluate(e Engine) (ret error) {
 			failed = r.Error
 		}
 	}
+	// C05 "a cyclic-dependency error is reported": dawn's target.go walks the results in dependency order and stops at the
+	// FIRST failed one; only if that one is a CyclicDependencyError does it report the cycle (Events.TargetFailed).  Each
+	// result is classified by its own error (not uniformised as rs above): 0 ok, 1 failed, 2 CyclicDependencyError.
+	codes := make([]int, 0, len(results))
+	first := 0
+	for _, r := range results {
+		c := 0
+		if _, ok := r.Error.(CyclicDependencyError); ok {
+			c = 2
+		} else if r.Error != nil {
+			c = 1
+		}
+		if first == 0 {
+			first = c
+		}
+		codes = append(codes, c)
+	}
 	w.mu.Lock()
 	w.results[l] = rs
+	if w.first == nil {
+		w.first = map[int]int{}
+	}
+	w.first[l] = first
 	w.mu.Unlock()
+	w.v.at("eval.results", strconv.Itoa(l), codes)
 
 	if failed != nil {
 		// dawn's target.go: "dependency %v failed" is returned before evaluate() is reached
@@ -484,6 +590,7 @@ type vresult struct {
 	stuck       bool // Run returned but goroutines never became quiescent
 	runErr      string
 	capacityEnd int
+	blocked     []string // after a hang: the goroutines of the build and where each is blocked (from the runtime's stack dump)
 }
 
 func vkindOf(err error) string {
@@ -534,6 +641,7 @@ func vexec(r *vrun, timeout time.Duration) (*vworld, *vresult) {
 	case runErr = <-done:
 	case <-time.After(timeout):
 		res.hung = true
+		res.blocked = vblockedReport()
 		return w, res
 	}
 	res.runErr = vkindOf(runErr)
@@ -544,6 +652,7 @@ func vexec(r *vrun, timeout time.Duration) (*vworld, *vresult) {
 	for v.live.Load() != 0 {
 		if time.Now().After(deadline) {
 			res.stuck = true
+			res.blocked = vblockedReport()
 			return w, res
 		}
 		time.Sleep(50 * time.Microsecond)
@@ -582,6 +691,21 @@ func vexec(r *vrun, timeout time.Duration) (*vworld, *vresult) {
 		if !sawCyclic {
 			w.oracle("cycle_reported", "a cycle is reachable from the root but no CyclicDependencyError was produced")
 		}
+		// ... and it must reach a consumer the way dawn's target.go reads the results: some target's FIRST failed result
+		// is the CyclicDependencyError (that target then reports it through Events.TargetFailed; any other first error is
+		// passed on silently as "dependency ... failed")
+		reporters := []int{}
+		w.mu.Lock()
+		for l, c := range w.first {
+			if c == 2 {
+				reporters = append(reporters, l)
+			}
+		}
+		w.mu.Unlock()
+		if sawCyclic && len(reporters) == 0 {
+			w.oracle("cycle_reported_first", fmt.Sprintf("a cycle is reachable from the root and a CyclicDependencyError was produced, but for "+
+				"no target is it the first failed result (the one target.go reports); first-failed classes by target: %v", w.first))
+		}
 	} else if sawCyclic || res.runErr == "cyclic" {
 		w.oracle("no_false_cycle", "acyclic graph but a CyclicDependencyError was produced")
 	}
@@ -605,12 +729,21 @@ func vexec(r *vrun, timeout time.Duration) (*vworld, *vresult) {
 
 func vjsonRun(r *vrun, w *vworld, res *vresult) []byte {
 	g := r.g
+	// After a hang the log mutex may be held for ever (a goroutine blocked between a .pre hook and its .post keeps it): try
+	// for a while, then read the log as it is (its owner is blocked, nobody appends).
+	locked := false
+	for i := 0; i < 2000 && !locked; i++ {
+		if locked = w.v.mu.TryLock(); !locked {
+			time.Sleep(500 * time.Microsecond)
+		}
+	}
 	evs := make([][]any, 0, len(w.v.evs))
-	w.v.mu.Lock()
 	for _, e := range w.v.evs {
 		evs = append(evs, append([]any{e.gid, e.point}, e.args...))
 	}
-	w.v.mu.Unlock()
+	if locked {
+		w.v.mu.Unlock()
+	}
 	cnt := func(a []atomic.Int32) []int {
 		out := make([]int, len(a))
 		for i := range a {
@@ -636,6 +769,10 @@ func vjsonRun(r *vrun, w *vworld, res *vresult) []byte {
 		results[strconv.Itoa(l)] = rs
 	}
 	order := append([]int{}, w.order...)
+	firstFailed := map[string]int{}
+	for l, c := range w.first {
+		firstFailed[strconv.Itoa(l)] = c
+	}
 	outcomes := make([]string, g.n)
 	for l := 0; l < g.n; l++ {
 		if w.finished[l] {
@@ -651,16 +788,65 @@ func vjsonRun(r *vrun, w *vworld, res *vresult) []byte {
 		"unknown": keys(g.unknown), "failing": keys(g.failing), "cyclic": g.cyclic(),
 		"profile": vprofiles[r.profile].name, "procs": r.procs, "via_run": r.viaRun,
 		"hung": res.hung, "stuck": res.stuck, "run_result": res.runErr, "capacity_end": res.capacityEnd,
-		"max_inside": w.maxInside.Load(),
-		"events":     evs,
+		"max_inside": w.maxInside.Load(), "blocked": res.blocked, "log_mutex_held": !locked,
+		"schedule": w.v.schedule, "controlled": w.v.policy,
+		"events": evs,
 		"obs": map[string]any{"load": cnt(w.load), "eval": cnt(w.eval), "body": cnt(w.body), "order": order,
-			"outcomes": outcomes, "results": results},
+			"outcomes": outcomes, "results": results, "first_failed": firstFailed},
 	}
 	b, err := json.Marshal(m)
 	if err != nil {
 		panic(err)
 	}
 	return b
+}
+
+// vextraGraphs is set by a property's own harness file (zz_verif_c05_ctl_test.go: cycles with side dependencies).
+var vextraGraphs func() []*vgraph
+
+// vhangDetail says, for a run that did not end, which goroutines of the build are blocked where.
+func vhangDetail(w *vworld, res *vresult) string {
+	d := "goroutines of the build: " + strings.Join(res.blocked, "; ")
+	if w.v.mu.TryLock() {
+		w.v.mu.Unlock()
+	} else {
+		last := ""
+		if n := len(w.v.evs); n > 0 {
+			last = fmt.Sprintf(" (last logged event: goroutine %d %s %v)", w.v.evs[n-1].gid, w.v.evs[n-1].point, w.v.evs[n-1].args)
+		}
+		d += "; the goroutine that logged the last event is blocked between that .pre hook and its .post hook and still owns the " +
+			"harness's log mutex, so goroutines shown at a hook are waiting for the log, not for the runner" + last
+	}
+	return d
+}
+
+// vprocessWatchdog guards the whole test process: if one run (including writing its record) takes longer than limit, the
+// in-run watchdog itself is stuck; the run is then named in <out>.stuck together with a goroutine dump and the process exits,
+// so that the check can attribute the hang to that run instead of waiting for go test's timeout.
+func vprocessWatchdog(outPath string, cur *atomic.Pointer[vrun], since *atomic.Int64, limit time.Duration) func() {
+	stop := make(chan struct{})
+	go func() {
+		tick := time.NewTicker(200 * time.Millisecond)
+		defer tick.Stop()
+		for {
+			select {
+			case <-stop:
+				return
+			case <-tick.C:
+			}
+			r := cur.Load()
+			if r == nil || time.Since(time.Unix(0, since.Load())) < limit {
+				continue
+			}
+			m := map[string]any{"run": r.id, "graph": r.g.name, "n": r.g.n, "root": r.g.root, "deps": r.g.deps, "k": r.k,
+				"profile": vprofiles[r.profile].name, "procs": r.procs, "via_run": r.viaRun, "seed": r.seed,
+				"waited_ms": limit.Milliseconds(), "blocked": vblockedReport()}
+			b, _ := json.Marshal(m)
+			os.WriteFile(outPath+".stuck", b, 0o644)
+			os.Exit(7)
+		}
+	}()
+	return func() { close(stop) }
 }
 
 func venvInt(name string, def int) int {
@@ -720,6 +906,13 @@ func TestVerifRunner(t *testing.T) {
 		id++
 		runs = append(runs, &vrun{id: id, g: g, k: []int{16, 4, 2}[i%3], profile: []int{0, 1, 0, 7}[i%4], procs: 16, seed: rng.Uint64()})
 	}
+	// extra graph families contributed by a property's own harness file (nil when that file is not part of the build)
+	if vextraGraphs != nil {
+		for i, g := range vextraGraphs() {
+			add(g, limits[i%len(limits)], false)
+			add(g, 1+(i+2)%3, i%4 == 0)
+		}
+	}
 	for i := 0; i < nrand; i++ {
 		g := vrandom(rng, i)
 		add(g, limits[rng.Intn(len(limits))], false)
@@ -729,14 +922,21 @@ func TestVerifRunner(t *testing.T) {
 	}
 
 	nOracle := 0
+	var cur atomic.Pointer[vrun]
+	var curSince atomic.Int64
+	stopWatch := vprocessWatchdog(outPath, &cur, &curSince, 3*timeout+5*time.Second)
+	defer stopWatch()
 	for _, r := range runs {
+		curSince.Store(time.Now().UnixNano())
+		cur.Store(r)
 		w, res := vexec(r, timeout)
 		if res.hung || res.stuck {
 			what := "Run did not return"
 			if res.stuck {
 				what = "Run returned but spawned goroutines never finished"
 			}
-			w.oracle("terminates", fmt.Sprintf("%s within %v (graph %s, limit %d)", what, timeout, r.g.name, r.k))
+			w.oracle("terminates", fmt.Sprintf("%s within %v (graph %s, limit %d, profile %s, GOMAXPROCS %d); %s", what, timeout, r.g.name, r.k,
+				vprofiles[r.profile].name, r.procs, vhangDetail(w, res)))
 		}
 		for _, o := range w.oracles {
 			nOracle++
